@@ -286,7 +286,7 @@ PROPS = {
         "outside": ["YAML matchers (goccy/go-yaml)"],
     },
     "selftest": {
-        "runs": [{"harness": "H_selftest"}, {"harness": "H_selftest_regexp"}, {"harness": "H_selftest_lib"}, {"harness": "H_selftest_minmax"}, {"harness": "H_selftest_json", "quick": {"n": 2}, "thorough": {"n": 3}}],
+        "runs": [{"harness": "H_selftest"}, {"harness": "H_selftest_regexp"}, {"harness": "H_selftest_lib"}, {"harness": "H_selftest_refprev", "quick": {"n": 2}, "thorough": {"n": 3}}, {"harness": "H_selftest_minmax"}, {"harness": "H_selftest_json", "quick": {"n": 2}, "thorough": {"n": 3}}],
         "bounds": {"quick": "10 texts x ~35 library functions", "thorough": "same"},
         "assumptions": [],
         "outside": [],
